@@ -369,6 +369,19 @@ def run_reprint_batches(ctx, v, batches, listed_quirks):
         if m is None or m.get("parse") != "ok" or m.get("kind") not in ("data", "stats"):
             v.stats["evaluated"] += 1
             v.stats["unsupported"] += 1
+            # the answer is not compared (wait headers, columns outside the model ...), the printed text is:
+            # the model prints the same text, and printing what was printed changes nothing
+            rp, mp = r1.get("reprint"), (m or {}).get("reprint")
+            if r1.get("crash"):
+                v.violations.append(("crash", case, "the implementation crashed: " + (r1.get("stderr") or "")[-400:]))
+            elif rp and mp is not None:
+                case2 = dict(case, extra=dict(case.get("extra") or {}, reprint=rp, original=case["text"]))
+                v.bump("reprint_text_only")
+                r2 = impl2.get(cid) or {}
+                if r1.get("code") != 400 and r2.get("code") == 400:
+                    v.violations.append(("property", case2, "the printed form of an accepted request is rejected by the parser (%s): %r" % (r2.get("err") or r2.get("body"), rp)))
+                elif mp != rp:
+                    v.corr_broken.append((case2, "Request.String differs: impl %r model %r" % (rp, mp)))
             continue
         rp = r1.get("reprint")
         if not rp:
